@@ -83,7 +83,8 @@ StartOfDay(z, d0) ==
 \* views of an instant in a zone: toPlainDateTime / toPlainDate / toPlainTime, the offset, Temporal.Now.* with explicit system
 \* information, Instant.toZonedDateTimeISO and withTimeZone all read the same wall reading of the same instant
 \* (day: whole days relative to the base day; sod: second of the local day)
-Views(z, t) == LET w == Wall(z, t) IN [t |-> t, w |-> w, day |-> w \div 86400, sod |-> w % 86400, off |-> OffsetAt(z, t)]
+\* (ti: to_instant; cmp: compare_instant with the zoned date-times one second earlier, equal, one second later - whatever their zone says)
+Views(z, t) == LET w == Wall(z, t) IN [t |-> t, w |-> w, day |-> w \div 86400, sod |-> w % 86400, off |-> OffsetAt(z, t), ti |-> t, cmp |-> <<1, 0, -1>>]
 \* toString then from_str (offset option reject): the printed offset has minute precision and is matched at minute precision
 StringTrip(z, t) == Interpret(z, Wall(z, t), "offset", RoundToMinute(OffsetAt(z, t)), "compatible", "reject", TRUE)
 =============================================================================
